@@ -62,10 +62,14 @@ Definition c18_adaptive (atol rtol : Q) (rate : nat) (t0 : Q) (y0 f0 f1 : list Q
                  inject_Z (first_bad 1 rt asm arg_impl (at_arg2 r))]
          end).
 
-(* [1; dt0; ok|u0|^2; ok|f0|^2] *)
+(* [1; guard branch taken; dt0; ok|u0|^2; ok|f0|^2]   ([0]: zero denominator) *)
 Definition c18_simple (scale nugget t : Q) (u0 f0 : list Q) (d0 d1 rt asq : Q) : list Z :=
   let f := fun (_ : Q) (_ : list Q) => f0 in
   let nrm := table_norm [(u0, d0)] d1 in
-  showQ (Some [dt0_simple f nrm scale nugget t u0;
-               qb (close rt asq (d0 * d0) (norm_sq u0));
-               qb (close rt asq (d1 * d1) (norm_sq f0))]).
+  showQ (match dt0_simple f nrm scale nugget t u0 with
+         | None => None
+         | Some h =>
+           Some [qb (dt0_simple_branch nrm u0); h;
+                 qb (close rt asq (d0 * d0) (norm_sq u0));
+                 qb (close rt asq (d1 * d1) (norm_sq f0))]
+         end).
